@@ -52,8 +52,10 @@ type c12Verdict struct {
 	why        string
 }
 
-func acc(v uint64, why string) c12Verdict { return c12Verdict{mode: vAccept, value: v, valueKnown: true, why: why} }
-func rej(s error, why string) c12Verdict  { return c12Verdict{mode: vReject, sentinel: s, why: why} }
+func acc(v uint64, why string) c12Verdict {
+	return c12Verdict{mode: vAccept, value: v, valueKnown: true, why: why}
+}
+func rej(s error, why string) c12Verdict { return c12Verdict{mode: vReject, sentinel: s, why: why} }
 func open(v uint64, known bool, why string) c12Verdict {
 	return c12Verdict{mode: vOpen, value: v, valueKnown: known, why: why}
 }
